@@ -49,3 +49,20 @@ Proof.
   destruct (asz_cases x) as [[H E]|[[H E]|[[H E]|[H E]]]]; rewrite E;
   destruct (asz_cases y) as [[H' E']|[[H' E']|[[H' E']|[H' E']]]]; rewrite E'; intros; lia.
 Qed.
+
+(* A4: whatever lies at or after the end of a block has its own block at or after that end *)
+Lemma block_after : forall x y, block_of x + allocation_size x <= y -> block_of x + allocation_size x <= block_of y.
+Proof.
+  intros x y. rewrite !block_of_eq.
+  destruct (asz_cases x) as [[H E]|[[H E]|[[H E]|[H E]]]]; rewrite E;
+  destruct (asz_cases y) as [[H' E']|[[H' E']|[[H' E']|[H' E']]]]; rewrite E'; intros; lia.
+Qed.
+(* A5: a block that starts after x starts at or after the end of x's block *)
+Lemma block_before : forall x y, x < block_of y -> block_of x + allocation_size x <= block_of y.
+Proof.
+  intros x y. rewrite !block_of_eq.
+  destruct (asz_cases x) as [[H E]|[[H E]|[[H E]|[H E]]]]; rewrite E;
+  destruct (asz_cases y) as [[H' E']|[[H' E']|[[H' E']|[H' E']]]]; rewrite E'; intros; lia.
+Qed.
+Lemma block_idem : forall x, block_of (block_of x) = block_of x.
+Proof. intros x. pose proof (block_bounds x). apply block_same; lia. Qed.
